@@ -17,6 +17,7 @@
 # You should have received a copy of the GNU General Public License
 # along with Simplicial. If not, see <http://www.gnu.org/licenses/gpl.html>.
 
+import copy
 from typing import Iterable, Optional, Set, List, Any
 from simplicial import SimplicialComplex, Simplex, Attributes
 
@@ -118,10 +119,10 @@ class Filtration(SimplicialComplex):
             for s in self.simplicesAddedAtIndex(ind):
                 if self.orderOf(s) == 0:
                     # 0-simplex, just add it
-                    c.addSimplex(id=s, attr=self[s])
+                    c.addSimplex(id=s, attr=copy.copy(self[s]))
                 else:
                     # higher simplex, add the faces
-                    c.addSimplex(fs=self.faces(s), id=s, attr=self[s])
+                    c.addSimplex(fs=self.faces(s), id=s, attr=copy.copy(self[s]))
         c.setIndex(indf)
         return c
 
